@@ -64,14 +64,15 @@ class C14(Prop):
             else:
                 c = gen_nested_interrupt(rng)
             yield {"program": c["program"], "values": c["values"], "nested": c["nested"], "seed": rng.randint(0, 10**6),
-                   "responses": [rng.randint(30, 60) for _ in range(4)]}
+                   # responses include falsy values: "was a response supplied" is a question of presence, not of truthiness
+                   "responses": [rng.choice([0, False, "", {"l": []}, rng.randint(30, 60), rng.randint(30, 60)]) for _ in range(4)]}
 
     # ---------------------------------------------------------------- histories
     def _history(self, case: dict, runner: Any) -> dict:
         """Run; while paused, supply the response under the reported key; stop at completion / failure / no progress."""
         values = list(case["values"])
         rounds = []
-        answers: dict[str, int] = {}
+        answers: dict[str, Any] = {}
         for i in range(5):
             o = runner(case["program"], values, i)
             o["values_used"] = list(values)
